@@ -54,6 +54,23 @@ theorem other_type_untouched (cfg : Cfg) (rest : List Op) (r : Resp) (now : Nat)
     (h : r.rt ≠ rt) : served cfg (.push r now :: rest) rt n = served cfg rest rt n := by
   simp [served, h]
 
+/-- the same on the state itself (cache, access records, interest set, acknowledged version): handling a response of one
+type touches nothing that belongs to another type - e.g. removing a cluster never drops the endpoint set it names -/
+theorem push_touches_only_its_type (cfg : Cfg) (s s' : St) (r : Resp) (now : Nat) (t : RType) (ht : t ≠ r.rt)
+    (hs : step cfg s (.push r now) = some s') :
+    s'.cache t = s.cache t ∧ s'.acc t = s.acc t ∧ s'.watched t = s.watched t ∧ s'.version t = s.version t := by
+  simp only [step] at hs
+  split at hs; · cases hs
+  split at hs
+  · cases hs; exact ⟨rfl, rfl, rfl, rfl⟩
+  · split at hs; · cases hs
+    split at hs; · cases hs
+    split at hs
+    · cases hs; simp [ack, ht]
+    · split at hs
+      · cases hs; simp [ack, ht]
+      · cases hs; simp [applyUpdate, ack, ht]
+
 /-- names that were never asked for are never stored or served: whatever is served was carried by an
 accepted response at a moment when the name was subscribed -/
 theorem never_unsolicited (cfg : Cfg) (rops : List Op) (rt : RType) (n : Name) (v : Val)
